@@ -415,6 +415,14 @@ def run(S):
             S.inconclusive.append('%s: no solver model reproduced natively through format_source_range (%r)' % (lab, infos[0]))
     if not groups:
         validate_corpus(S, 'range over whitespace tokens', [], lambda: token_range_sweep(S))
+    # the property as stated, on whole documents: format_source_range from its MIR with every converter real, for the span of every node and ranges
+    # inside; the text laid out by the interpreted renderer is spliced into the source and parsed by the real parser
+    from . import reparse, deep
+    rdocs = reparse.RANGE_DOCS + reparse.TABLE_DOCS + reparse.BLOCK_DOCS + reparse.MISC_DOCS + reparse.EVAL_DOCS + reparse.PROSE_LINE_DOCS + deep.PROSE
+    if S.tier != 'quick':
+        rdocs += deep.DOCS + reparse.NORMALISE_DOCS + reparse.in_contexts(reparse.COMMENT_DOCS)
+    fr, covr = reparse.explore_range(S, rdocs, widths=(0, 40, 1 << 30) if S.tier == 'quick' else (0, 20, 40, 80, 1 << 30), max_ranges=10 if S.tier == 'quick' else 24)
+    reparse.report_range(S, fr)
     return S.finish(level='other', explanation=EXPLANATION,
                     trusted=['mirsym encoder', 'std string contracts', 'typst-syntax kind tables extracted from the real crate', 'LinkedNode offsets = prefix sums of child lengths'])
 
